@@ -16,6 +16,11 @@ impl Decimal {
     pub fn is_zero(&self) -> (r: bool) ensures r == (self.0 == 0) { self.0 == 0 }
     pub fn percent(x: u64) -> (r: Decimal) ensures r.0 == x * 10_000_000_000_000_000 { Decimal((x as u128) * 10_000_000_000_000_000) }
     pub fn atomics(&self) -> (r: Uint128) ensures r.0 == self.0 { Uint128(self.0) }
+    /// `Decimal::from_ratio(n, d)` = floor(n * 10^18 / d); panics on d == 0 or overflow (partial-correctness contract)
+    #[verifier::external_body]
+    pub fn from_ratio(n: impl Into<Uint128>, d: impl Into<Uint128>) -> (r: Decimal)
+        ensures true
+    { unimplemented!() }
 }
 impl SubSpecImpl<Decimal> for Decimal {
     open spec fn obeys_sub_spec() -> bool { true }
